@@ -62,12 +62,17 @@ func VerifC18_BeginBlock() {
 	k := keeper.NewKeeper(e.cdc, e.key, e.bank, svc)
 	interval := uint64(verifChoice("interval", 3)) // 0,1,2
 	alice, bob := vAddr(1), vAddr(2)
+	// requesters whose request ids (hashes of height and requester) begin with the highest / the lowest byte
+	// value: the ids at the two ends of every per-height key range of the pending queue
+	edge := c18EdgeRequester(h0, []byte{0xff, 0x00}[verifChoice("edgeId", 2)])
 	// two requests in the same block from distinct requesters, one later request by alice
 	reqA, errA := k.RequestRandom(e.ctx.WithTxBytes([]byte("tx-a")), alice, interval, false, nil)
 	reqB, errB := k.RequestRandom(e.ctx.WithTxBytes([]byte("tx-b")), bob, interval, false, nil)
 	later := e.ctx.WithBlockHeight(h0 + 1).WithTxBytes([]byte("tx-c"))
 	reqC, errC := k.RequestRandom(later, alice, interval, false, nil)
-	verifAssert(errA == nil && errB == nil && errC == nil, "plain random requests are accepted")
+	reqE, errE := k.RequestRandom(e.ctx.WithTxBytes([]byte("tx-e")), edge, interval, false, nil)
+	verifAssert(errA == nil && errB == nil && errC == nil && errE == nil, "plain random requests are accepted")
+	idE := types.GenerateRequestID(reqE)
 	idA, idB, idC := types.GenerateRequestID(reqA), types.GenerateRequestID(reqB), types.GenerateRequestID(reqC)
 	verifAssert(!bytes.Equal(idA, idB) && !bytes.Equal(idA, idC), "distinct (requester, height) pairs get distinct ids")
 	// an oracle-seeded request due at the same height
@@ -102,7 +107,10 @@ func VerifC18_BeginBlock() {
 	ra, ea := k.GetRandom(ctx, idA)
 	rb, eb := k.GetRandom(ctx, idB)
 	_, ec := k.GetRandom(ctx, idC)
-	verifAssert(ea == nil && eb == nil, "every request due is fulfilled in the block after h+n")
+	re, ee := k.GetRandom(ctx, idE)
+	verifAssert(ea == nil && eb == nil && ee == nil, "every request due is fulfilled in the block after h+n")
+	verifAssert(re.Value == types.MakePRNG(hdr.AppHash, now, edge, nil, false).GetRand().FloatString(types.RandPrec) && !st.Has(types.KeyRandomRequestQueue(due, idE)),
+		"a request whose id lies at the end of the height's key range is fulfilled and removed like any other")
 	// each number is derived from the block's app hash and time and from the request's OWN consumer
 	expA := types.MakePRNG(hdr.AppHash, now, alice, nil, false).GetRand().FloatString(types.RandPrec)
 	expB := types.MakePRNG(hdr.AppHash, now, bob, nil, false).GetRand().FloatString(types.RandPrec)
@@ -273,4 +281,19 @@ func c18hex(c byte) byte {
 		return c - 'a' + 10
 	}
 	return c - '0'
+}
+
+// c18EdgeRequester searches (concretely) for a requester whose request id at the given height begins with the given byte.
+func c18EdgeRequester(height int64, first byte) sdk.AccAddress {
+	for a := 0; a < 256; a++ {
+		for b := 0; b < 256; b++ {
+			addr := make(sdk.AccAddress, 20)
+			addr[0], addr[1], addr[19] = byte(a), byte(b), 0x5a
+			if types.GenerateRequestID(types.Request{Height: height, Consumer: addr.String()})[0] == first {
+				return addr
+			}
+		}
+	}
+	verifFail("no requester with the wanted id prefix found")
+	return nil
 }
